@@ -11,22 +11,12 @@ import LouProofs.FwdOK
 import LouProofs.BackOK
 import LouProofs.C02
 import LouProofs.C04Back
+import LouModel.Engine
 
 namespace Lou.ModelEngine
 open Lou Lou.Gen Lou.Drv Lou.Contract
 
-/-- the engines of Layer B as ONE engine of Layer A: the main pass is the F0 model (`Fwd.translate`), every other
-    stage the multipass stage model (`Pass.fwdStage`).  Where the stage model answers `unsupported` (a rule outside
-    its fragment) the engine emits nothing — only so that the function is total; the claims below are about tables
-    whose stages the models cover, which is where the differentials tie them to the implementation. -/
-def modelEngine (t : Table) : Engine := fun ini _hist pin =>
-  if pin.passNo == 1 then
-    let r := Fwd.translate t ini.mode pin.chars pin.maxlen pin.cpos pin.cstat
-    { out := r.out, map := r.map, realInlen := r.realInlen, cpos := r.cpos, cstat := r.cstat }
-  else
-    match Pass.fwdStage t pin.passNo pin.chars pin.maxlen with
-    | .done o => { out := o.out, map := o.map, realInlen := o.realInlen, cpos := pin.cpos, cstat := pin.cstat }
-    | _ => { out := [], map := [], realInlen := 0, cpos := pin.cpos, cstat := pin.cstat }
+export Lou.Engine (modelEngine modelEngineBack)
 
 /-- **modelEngine_ok**: the modelled engines satisfy the contract the Layer A theorems assume of an arbitrary
     engine (E1–E4), and E5 (no negative map entry) -/
@@ -111,15 +101,6 @@ theorem model_fwd_roundtrip (ti : TableInfo) (disp : Nat → Nat) (t : Table) (a
   exact hr
 
 /-! ### backward -/
-
-def modelEngineBack (t : Table) : Engine := fun ini _hist pin =>
-  if pin.passNo == 1 then
-    let r := Back.translate t ini.mode pin.chars pin.maxlen pin.cpos
-    { out := r.out, map := r.map.map (fun o => o.getD 0), realInlen := r.realInlen, cpos := r.cpos, cstat := r.cstat }
-  else
-    match Pass.backStage t pin.passNo pin.chars pin.maxlen with
-    | .done o => { out := o.out, map := o.map.take o.realInlen, realInlen := o.realInlen, cpos := pin.cpos, cstat := pin.cstat }
-    | _ => { out := [], map := [], realInlen := 0, cpos := pin.cpos, cstat := pin.cstat }
 
 /-- **modelEngineBack_ok**: the backward engines of Layer B satisfy the clauses of the contract the backward driver
     theorems use (E1 output within the capacity, E3 consumed length within the input) -/
